@@ -3566,7 +3566,11 @@ fn evaluate_scalar_func(
                 .zip(p.iter())
                 .map(|((m, s), prob)| match (m, s, prob) {
                     (Some(m), Some(s), Some(p)) => {
-                        Normal::new(*m, *s).ok().map(|n| n.inverse_cdf(*p))
+                        // statrs panics on a probability outside [0, 1]
+                        Normal::new(*m, *s)
+                            .ok()
+                            .filter(|_| (0.0..=1.0).contains(p))
+                            .map(|n| n.inverse_cdf(*p))
                     }
                     _ => None,
                 })
@@ -3618,7 +3622,10 @@ fn evaluate_scalar_func(
                 .zip(p.iter())
                 .map(|((a_opt, b_opt), p_opt)| match (a_opt, b_opt, p_opt) {
                     (Some(a), Some(b), Some(p)) => {
-                        Beta::new(*a, *b).ok().map(|dist| dist.inverse_cdf(*p))
+                        Beta::new(*a, *b)
+                            .ok()
+                            .filter(|_| (0.0..=1.0).contains(p))
+                            .map(|dist| dist.inverse_cdf(*p))
                     }
                     _ => None,
                 })
